@@ -58,3 +58,17 @@ for M in (2, 3, 4, 5, 6, 7, 8):
     QP('obj.M%d' % M, 'harness/parse_obj.c', props=('C01', 'C02', 'C03', 'C08', 'C10'), defs=['-DM=%d' % M], unwind=M + 3, tiers=tiers, cost=M * 4,
        stub=['parse_value', 'parse_string'], functions=['parse_object', 'buffer_skip_whitespace', 'cJSON_New_Item', 'cJSON_Delete'],
        unwindset=['cJSON_Delete.0:%d' % (M + 2), 'cJSON_Delete:2'])
+for M in (1, 4, 6):
+    QP('val.M%d' % M, 'harness/parse_val.c', defs=['-DM=%d' % M], unwind=M + 3, cost=3,
+       stub=['parse_value', 'parse_string', 'parse_number', 'parse_array', 'parse_object'], functions=['parse_value'])
+TOPFN = ['cJSON_ParseWithLengthOpts', 'cJSON_ParseWithLength', 'cJSON_ParseWithOpts', 'cJSON_Parse', 'skip_utf8_bom', 'buffer_skip_whitespace', 'cJSON_New_Item', 'cJSON_Delete', 'cJSON_GetErrorPtr']
+for M in (1, 2, 3, 4, 5, 6, 7, 8):
+    for E in (0, 1, 2, 3):
+        quick = True
+        tiers = ('quick', 'thorough') if quick else ('thorough',)
+        QP('top.E%d.M%d' % (E, M), 'harness/parse_top.c', props=('C01', 'C02', 'C03', 'C08', 'C10'), defs=['-DM=%d' % M, '-DENTRY=%d' % E], unwind=M + 3, tiers=tiers, cost=M,
+           stub=['parse_value'], functions=TOPFN, unwindset=['cJSON_Delete.0:2', 'cJSON_Delete:2'])
+for M in (2, 4):
+    for E in (0, 2):
+        QP('top.E%d.noend.M%d' % (E, M), 'harness/parse_top.c', props=('C01', 'C10'), defs=['-DM=%d' % M, '-DENTRY=%d' % E, '-DWITH_END=0'], unwind=M + 3, cost=M,
+           stub=['parse_value'], functions=TOPFN, unwindset=['cJSON_Delete.0:2', 'cJSON_Delete:2'])
